@@ -360,3 +360,37 @@ type helperBody struct {
 	pk   *packages.Package
 	decl *ast.FuncDecl // nil for the starting node
 }
+
+// withPkgCallees: fn followed by the functions of its own package it calls
+// statically, transitively up to depth (helpers a method body was split into).
+func (c *Ctx) withPkgCallees(fn *ssa.Function, depth int) []*ssa.Function {
+	out := []*ssa.Function{fn}
+	seen := map[*ssa.Function]bool{fn: true}
+	var visit func(f *ssa.Function, d int)
+	visit = func(f *ssa.Function, d int) {
+		if d <= 0 {
+			return
+		}
+		for _, b := range f.Blocks {
+			for _, in := range b.Instrs {
+				ci, ok := in.(ssa.CallInstruction)
+				if !ok {
+					continue
+				}
+				g := ci.Common().StaticCallee()
+				if g == nil {
+					continue
+				}
+				g = core.Origin(g)
+				if seen[g] || len(g.Blocks) == 0 || core.FnPkg(g) == nil || core.FnPkg(fn) == nil || core.FnPkg(g).Pkg != core.FnPkg(fn).Pkg {
+					continue
+				}
+				seen[g] = true
+				out = append(out, g)
+				visit(g, d-1)
+			}
+		}
+	}
+	visit(fn, depth)
+	return out
+}
